@@ -52,7 +52,7 @@ pub fn plan_for(case: &ContCase, created: Option<&CreatedCont>) -> Plan {
         }
         None => {
             for i in 0..n_main {
-                addrs.push((1, i));
+                addrs.push((case.pack_id(0), i));
             }
             for (e, ec) in case.extra.iter().enumerate() {
                 for i in 0..ec.items.len() as u32 {
@@ -61,7 +61,7 @@ pub fn plan_for(case: &ContCase, created: Option<&CreatedCont>) -> Plan {
             }
         }
     }
-    addrs.push((1, n_main)); // past the count: None
+    addrs.push((case.pack_id(0), n_main)); // past the count: None
     // unknown pack ids: one past the highest, and (when the ids are spread out) the holes between them
     let top = case.pack_id(case.extra.len());
     addrs.push((top + 1, 0));
@@ -255,7 +255,7 @@ pub fn dump_container(path: &Path, plan: &Plan) -> Dump {
             &mut d,
             format!("content/{pack}/{id:06}"),
             || {
-                Ok(match container.get_bytes(addr).map_err(|e| e.to_string())? {
+                let direct = match container.get_bytes(addr).map_err(|e| e.to_string())? {
                     None => (None, "none".to_string()),
                     Some(MayMissPack::MISSING(info)) => (None, format!("missing:{}", pack_info_str(&info))),
                     Some(MayMissPack::FOUND(None)) => (None, "found:none".to_string()),
@@ -263,7 +263,21 @@ pub fn dump_container(path: &Path, plan: &Plan) -> Dump {
                         let size = r.size().into_u64();
                         (Some(r), format!("found:size={size}"))
                     }
-                })
+                };
+                // the same answer taken through the combinators of MayMissPack (as_ref / map / transpose / get) agrees
+                let again = container.get_bytes(addr).map_err(|e| e.to_string())?;
+                let via = match again.and_then(|m| m.map(|o| o.map(|r| r.size().into_u64())).transpose()) {
+                    None => "none-or-found:none".to_string(),
+                    Some(m) => match m.as_ref() {
+                        MayMissPack::MISSING(info) => format!("missing:{}", pack_info_str(&info)),
+                        MayMissPack::FOUND(size) => format!("found:size={size}"),
+                    },
+                };
+                let same = via == direct.1 || (via == "none-or-found:none" && (direct.1 == "none" || direct.1 == "found:none"));
+                if !same {
+                    return Err(format!("get_bytes answers {:?} but {:?} through map/transpose/as_ref", direct.1, via));
+                }
+                Ok(direct)
             },
             |v| v.1.clone(),
         );
@@ -284,9 +298,7 @@ pub fn dump_container(path: &Path, plan: &Plan) -> Dump {
         item(&mut d, "check/container".into(), || container.check().map_err(|e| e.to_string()), |v| v.to_string());
         item(&mut d, "check/directory_pack".into(), || container.get_directory_pack().check().map_err(|e| e.to_string()), |v| v.to_string());
         for id in &plan.pack_ids {
-            if *id == 0 {
-                continue;
-            }
+            // (id 0 names a content pack only in containers made with the low-level creators; otherwise get_pack(0) is None)
             let r = util::catch(|| match container.get_pack(jbk::PackId::from(*id)) {
                 Ok(Some(MayMissPack::FOUND(p))) => Some(p.check().map_err(|e| e.to_string())),
                 _ => None,
@@ -352,7 +364,7 @@ pub fn expected_dump(case: &ContCase, created: &CreatedCont, plan: &Plan) -> Dum
             d.insert(format!("index/{name}/{i:06}/variant"), format!("ok:{:?}", em.variant.map(|v| st.variants[v].name.clone())));
             for p in &props {
                 let s = match em.vals.get(p) {
-                    Some(Val::Ref(t)) => val_str(&Val::U(inverse[*t] as u64)),
+                    Some(Val::Ref(t)) => val_str(&resolved_ref(st, p, inverse[*t])),
                     Some(v) => val_str(v),
                     None => "absent".into(),
                 };
@@ -371,7 +383,7 @@ pub fn expected_dump(case: &ContCase, created: &CreatedCont, plan: &Plan) -> Dum
             by_addr.insert((a.pack_id.into_u16(), a.content_id.into_u32()), case.extra[e].bytes_of(i));
         }
     }
-    let counts: BTreeMap<u16, u32> = std::iter::once((1u16, case.content.expected_count() as u32)).chain(case.extra.iter().enumerate().map(|(e, c)| (case.pack_id(e + 1), c.items.len() as u32))).collect();
+    let counts: BTreeMap<u16, u32> = std::iter::once((case.pack_id(0), case.content.expected_count() as u32)).chain(case.extra.iter().enumerate().map(|(e, c)| (case.pack_id(e + 1), c.items.len() as u32))).collect();
     for (pack, id) in &plan.addrs {
         let key = format!("content/{pack}/{id:06}");
         match by_addr.get(&(*pack, *id)) {
